@@ -1053,7 +1053,54 @@ impl<'a> TypeMono<'a> {
             Ty::TRef { elem } => Ty::TRef {
                 elem: Box::new(self.collapse_type_apps(elem)),
             },
+            Ty::TVec { elem } => Ty::TVec {
+                elem: Box::new(self.collapse_type_apps(elem)),
+            },
             _ => ty.clone(),
+        }
+    }
+
+    // Fields of non-generic structs and enums may mention instances of generic types
+    // (`struct Holder { o: Opt[int32] }`); they are rewritten like every other type.
+    fn collapse_non_generic_defs(&mut self) {
+        let enums: Vec<EnumDef> = self
+            .enum_base
+            .values()
+            .filter(|def| def.generics.is_empty())
+            .cloned()
+            .collect();
+        for def in enums {
+            let variants = def
+                .variants
+                .iter()
+                .map(|(vname, fields)| {
+                    let fields = fields.iter().map(|t| self.collapse_type_apps(t)).collect();
+                    (vname.clone(), fields)
+                })
+                .collect();
+            self.monoenv.genv.insert_enum(EnumDef {
+                name: def.name.clone(),
+                generics: vec![],
+                variants,
+            });
+        }
+        let structs: Vec<StructDef> = self
+            .struct_base
+            .values()
+            .filter(|def| def.generics.is_empty())
+            .cloned()
+            .collect();
+        for def in structs {
+            let fields = def
+                .fields
+                .iter()
+                .map(|(fname, fty)| (fname.clone(), self.collapse_type_apps(fty)))
+                .collect();
+            self.monoenv.genv.insert_struct(StructDef {
+                name: def.name.clone(),
+                generics: vec![],
+                fields,
+            });
         }
     }
 }
@@ -1336,6 +1383,8 @@ pub fn mono_checked(
             body,
         });
     }
+
+    m.collapse_non_generic_defs();
 
     if let Some(name) = m.too_large.take() {
         return Err(too_large_message("type", &name));
